@@ -30,6 +30,8 @@ var msgAlphabet = []string{
 	`{"raw":"AAECAwQFBgcICQoLDA0ODxAREhMUFRYXGBkaGxwdHh8gISIjJCUmJygpKissLS4vMDEyMzQ1Njc4OTo7PD0+P0BBQkNERUZHSElKS0xNTk9QUVJTVFVWV1hZWltcXV5fYGFiY2RlZmdoaWprbG1ub3BxcnN0dXZ3eHl6e3x9fn+AgYKDhIWGh4iJiouMjY6PkJGSk5SVlpeYmZqbnJ2en6ChoqOkpaanqKmqq6ytrq+wsbKztLW2t7i5uru8vb6/wMHCw8TFxsfIycrLzM3Oz9DR0tPU1dbX2Nna29zd3t/g4eLj5OXm5+jp6uvs7e7v8PHy8/T19vf4+fr7/P3+/w=="}`,
 	`{"all":{"int32ToStringMap":{"-1":"x"},"boolToStringMap":{"true":"t"},"uint64ToStringMap":{"18446744073709551615":"m"},"stringToStringMap":{"":"empty key"}}}`,
 	`{"all":{"bytesMap":{"k":"/w=="},"doubleMap":{"k":"NaN"},"int64Map":{"k":"-1"}}}`,
+	`{"anyValue":{"@type":"type.googleapis.com/verif.v1.Msg","name":"inside any","num":3}}`,
+	`{"anyValue":{"@type":"type.googleapis.com/google.protobuf.Duration","value":"1.500s"},"kids":[{"anyValue":{"@type":"type.googleapis.com/verif.v1.Msg","tags":["t"]}}]}`,
 	`{"pv":{"oneofDoubleValue":0}}`,
 	`{"pv":{"oneofEnumValue":"ENUM_VALUE"}}`,
 	`{"all":{"optInt32Value":0,"optDoubleValue":0}}`,
